@@ -4,21 +4,30 @@
 # a private mount namespace bind-mounts the tree over /repo; builds go to target-*-mut dirs;
 # evidence goes to a scratch directory. Exit status: 0 if every check stayed silent (mutant missed),
 # 1 if at least one reported a VIOLATION (mutant detected), 2 on machinery errors.
+#
+# Locking: mutant runs of one checker workspace share its target-*-mut directories, and cargo decides
+# freshness by mtime. Two concurrent runs on one workspace defeat the refresh below (the later build's
+# artefacts are newer than the earlier run's touched sources, which silently keeps the OTHER mutant's
+# code). So each check takes the lock(s) of the workspace(s) it builds in, and the tree's sources are
+# touched INSIDE the lock, immediately before the build.
 tree="$1"; tier="$2"; shift 2
-# One mutant run at a time: two concurrent runs sharing a target-*-mut directory defeat the mtime
-# refresh below (the later build's artefacts are newer than the earlier run's touched sources).
-if [ -z "$RUN_MUTANT_LOCKED" ]; then
-  export RUN_MUTANT_LOCKED=1
-  exec flock /dev/shm/run_mutant.lock "$0" "$tree" "$tier" "$@"
-fi
 ev=/dev/shm/mut-evidence-$$; mkdir -p "$ev"
-# cargo decides freshness by mtime: files of this tree may be OLDER than the artefacts a previous
-# mutant left in target-*-mut, which would silently keep the previous mutant's code for crates this
-# tree does not touch. Touch every source file of the tree so that all path crates are rebuilt from it.
-find "$tree/crates" "$tree/Cargo.toml" "$tree/Cargo.lock" -type f \( -name '*.rs' -o -name 'Cargo.toml' -o -name 'Cargo.lock' -o -name '*.md' -o -name '*.policy' -o -name '*.pest' \) -exec touch {} + 2>/dev/null
 rc=0
 for id in "$@"; do
-  out=$(unshare -m bash -c "mount --bind '$tree' /repo && cd /verif && VERIF_TARGET_SUFFIX=${MUT_SUFFIX:--mut} VERIF_EVIDENCE_DIR=$ev ./check $id --tier $tier" 2>&1)
+  wss=$(python3 - "$id" <<'PY'
+import json,glob,os,sys
+pid=sys.argv[1]; out=set()
+for f in glob.glob('/verif/harness/*/checks.json'):
+    c=json.load(open(f))['checks'].get(pid)
+    if c:
+        out.add(os.path.basename(os.path.dirname(f)))
+        for p in c.get('also',[]): out.add(p['ws'])
+print(' '.join(sorted(out)))
+PY
+)
+  cmd="find '$tree/crates' '$tree/Cargo.toml' '$tree/Cargo.lock' -type f \( -name '*.rs' -o -name 'Cargo.toml' -o -name 'Cargo.lock' -o -name '*.md' -o -name '*.policy' -o -name '*.pest' \) -exec touch {} + 2>/dev/null; unshare -m bash -c \"mount --bind '$tree' /repo && cd /verif && VERIF_TARGET_SUFFIX=${MUT_SUFFIX:--mut} VERIF_EVIDENCE_DIR=$ev ./check $id --tier $tier\""
+  for ws in $wss; do cmd="flock /dev/shm/run_mutant.$ws.lock bash -c $(printf '%q' "$cmd")"; done
+  out=$(bash -c "$cmd" 2>&1)
   st=$?
   echo "== $id: exit $st"
   echo "$out" | grep -E "^VIOLATION|^KNOWN-FINDING|MACHINERY|^  key:|^C[0-9]+ (quick|thorough):" | head -8
